@@ -303,9 +303,13 @@ def run(tier, seed, out):
             c["id"] = nid
             nid += 1
         kit.log(f"C05: {cfg}: {len(cases)} (optimisation sequence, history) cases")
-        t1 = time.time()
-        part, nj = drive_opt(cases, t)
-        kit.log(f"C05: {nj} fresh interpreters in {time.time() - t1:.1f}s")
+        tabs[cfg] = t
+    # all batches share one pool of fresh interpreters (start-up dominates)
+    t1 = time.time()
+    with cf.ThreadPoolExecutor(max_workers=max(1, len(opt_batches))) as ex:
+        parts = list(ex.map(lambda b: drive_opt(b[2], b[1], procs=max(4, kit.NCPU // max(1, len(opt_batches)))),
+                            opt_batches))
+    for (cfg, t, cases), (part, nj) in zip(opt_batches, parts):
         njobs += nj
         byid = {c["id"]: c for c in cases}
         for r in part:
@@ -314,7 +318,8 @@ def run(tier, seed, out):
                 refused += 1
             else:
                 recs.append(r)
-        tabs[cfg] = t
+    if opt_batches:
+        kit.log(f"C05: {njobs} fresh interpreters in {time.time() - t1:.1f}s")
     out.extra["optimizer_processes"] = njobs
     out.extra["optimizer_refusals_at_decoration"] = refused
     ncalls = sum(1 for r in recs for e in r["evs"] if e["ev"] in ("R", "W"))
